@@ -22,7 +22,7 @@ CFG = {
                   "against the unguarded containers), the Go harness. Not covered by any theorem: data-race freedom in the sense of the Go "
                   "memory model (race detector only, sampled schedules), deadlock freedom beyond 'every method releases what it acquires and "
                   "never re-acquires' (watchdog), absence of panics (sampled). A method that is a sequence of separately locked calls (per variadic element) is rejected by check_tables (Classify.compound_known is empty; zset.Set.Add/Remove/Contains were of that shape and are repaired by fix 0040). Excluded as the property says: ToMetaSlice, ToMetaMap, GetByRange, callbacks that "
-                  "re-enter the instance. (De)serialisation methods are exercised with valid documents (produced by the type itself), invalid ones (truncated, wrong element type, garbage) and empty ones; after every failing call the instance must still answer (a call blocking > 4 s in a run without concurrency = lock left held on an error path). Weakened on purpose: a panic under concurrency is reported only if the same operation mix issued by one goroutine never panics (failed loads leave arraylist-backed containers and bmap in an inconsistent state, a functional defect that then panics everywhere); document-loading methods of containers that decode through a Go map are left out of the serial-outcome scenarios (run-dependent tree shapes). Not exercised: lscq.QueueSafe methods that are unimplemented stubs.",
+                  "re-enter the instance. (De)serialisation methods are exercised with valid documents (produced by the type itself), invalid ones (truncated, wrong element type, garbage) and empty ones; after every failing call the instance must still answer (a call blocking > 4 s in a run without concurrency = lock left held on an error path). Weakened on purpose: a panic under concurrency is reported only if the same operation mix issued by one goroutine never panics (failed loads leave arraylist-backed containers and bmap in an inconsistent state, a functional defect that then panics everywhere); document-loading methods of containers that decode through a Go map are left out of the serial-outcome scenarios (run-dependent tree shapes). bcache instances hold expired-but-still-stored entries (1ns TTL, sweeper off) under the even keys; same-key scenarios (every sampled pair of methods on ONE key/index, also negative ones) and, for every offending entry of the table, targeted same-key/negative-argument/random scenarios against each writer are judged by the serial-outcome oracle. A Safe wrapper that disagrees with the container it wraps on a sequential trace is a violation (kind 2: the wrapped method of the same name is the sequential meaning of a wrapper call). Not exercised: lscq.QueueSafe methods that are unimplemented stubs.",
     "harness": "c11",
     "gen": [
         "cd tools/gen_c11 && go run . -out ../../coq/theories/C11/Gen/LockTables.v -classify ../../coq/theories/C11/Classify.v",
@@ -33,7 +33,8 @@ CFG = {
     ],
     "check_modules": ["C11.Check", "C11.Gen.LockTables"],
     "widen_runs": 1,
-    "widen_timeout": 1400,
+    "widen_tier": "widen",      # intermediate intensity (harness/cmd/c11): a quick check never exceeds ~150 s
+    "widen_timeout": 85,
     "theorems": [
         ("C11.Props", [
             "C11_discipline_atomic", "C11_discipline_no_overlap", "C11_shared_mutator_refuted", "C11_check_tables_sound",
